@@ -181,7 +181,58 @@ def check_text(case, ev):
     return None
 
 
-REPLAY = {"text": check_text}
+def check_dir(case, ev):
+    """The same structural oracle at file level: the text is split over several files of different
+    lengths (longest first) and anonymized as one directory; every output file must have its own
+    input's lines (count, leading/trailing white space), whatever came before it."""
+    import os
+    import shutil
+    import tempfile
+
+    from netconan.anonymize_files import anonymize_files
+
+    pwd, ip, words, asn = case["features"]
+    cfg = case["cfg"]
+    lines = case["lines"]
+    cuts = sorted(set(c for c in case["cuts"] if 0 < c < len(lines)))
+    chunks = [lines[a:b] for a, b in zip([0] + cuts, cuts + [len(lines)])]
+    chunks.sort(key=len, reverse=True)
+    d = tempfile.mkdtemp(prefix="vf-c12-")
+    try:
+        os.makedirs(os.path.join(d, "in"))
+        texts = {}
+        for i, ch in enumerate(chunks):
+            name = "f%d.cfg" % i
+            texts[name] = build(dict(case, lines=ch)).replace("\r\n", "\n").replace("\r", " ")
+            with open(os.path.join(d, "in", name), "w", encoding="utf-8", newline="") as fh:
+                fh.write(texts[name])
+        _, exc = guarded(
+            anonymize_files, os.path.join(d, "in"), os.path.join(d, "out"), bool(pwd), bool(ip), salt=cfg["salt"],
+            sensitive_words=list(WORDS) if words else None, as_numbers=list(ASNS) if asn else None,
+            preserve_prefixes=None if cfg["prefixes"] is None else list(cfg["prefixes"]),
+            preserve_networks=None if cfg.get("networks") is None else list(cfg["networks"]),
+            preserve_suffix_v4=cfg["B4"], preserve_suffix_v6=cfg["B6"],
+        )
+        if exc is not None:
+            return core.exc_finding(exc, case, "run/")
+        ev.case(case, len(chunks) >= 2, ["files%d" % len(chunks)])
+        for name, t in texts.items():
+            p_ = os.path.join(d, "out", name)
+            if not os.path.exists(p_):
+                return Finding("dir/output-missing", name, case)
+            o = open(p_, encoding="utf-8", newline="").read()
+            il, ol = t.split("\n"), o.split("\n")
+            if len(il) != len(ol):
+                return Finding("dir/line-count-changed", "file %s (processed with %d other files): %d lines in, %d lines out" % (name, len(chunks) - 1, len(il) - 1, len(ol) - 1), case)
+            for a, b in zip(il, ol):
+                if a.strip() and (a[: len(a) - len(a.lstrip())] != b[: len(b) - len(b.lstrip())] or a[len(a.rstrip()) :] != b[len(b.rstrip()) :]):
+                    return Finding("dir/edge-whitespace-changed", "file %s: %r -> %r" % (name, a, b), case)
+    finally:
+        shutil.rmtree(d, ignore_errors=True)
+    return None
+
+
+REPLAY = {"text": check_text, "dir": check_dir}
 
 _lead = st.one_of(st.sampled_from(["", "", " ", "  ", "    ", "\t"]), st.sampled_from(UNUSUAL_WS), st.lists(st.sampled_from([" ", "\t", "\xa0", "\x0c", " ", "\x1c"]), max_size=3).map("".join))
 _sep = st.one_of(st.sampled_from([" ", " ", " ", "  ", "\t"]), st.sampled_from(UNUSUAL_WS[:6]))
@@ -279,6 +330,22 @@ def t_text(shard, nshards, seed, ev, known, n=300):
     return core.hyp_drive(_case(), check_text, n, seed, ev, known, check_name="text", max_keys=8)
 
 
+@st.composite
+def _dir_case(draw):
+    c = draw(_case())
+    if any(getattr(f, "keys", None) is None for f in c["features"]) and not any(c["features"]):
+        c["features"][0] = True
+    c["cuts"] = draw(st.lists(st.integers(1, max(1, len(c["lines"]) - 1)), min_size=1, max_size=3))
+    return c
+
+
+def t_dir(shard, nshards, seed, ev, known, n=60):
+    return core.hyp_drive(_dir_case(), check_dir, n, seed, ev, known, check_name="dir")
+
+
 def plan(tier):
     q = tier == "quick"
-    return [Task("text", t_text, shards=8 if q else 16, n=300 if q else 25000)]
+    return [
+        Task("text", t_text, shards=8 if q else 16, n=300 if q else 25000),
+        Task("dir", t_dir, shards=3 if q else 8, n=80 if q else 1500),
+    ]
